@@ -357,6 +357,26 @@ def _(tmp):
     edit(tmp, "src/asm/defs/ruledef_map.rs", lambda s: rename_in_fn(s, "query_prefixed", {"i": "n", "j": "m", "subprefix": "probe", "results": "found"}))
 
 
+@case("rename-bigint-params", ["C05", "C04", "C19"])
+def _(tmp):
+    edit(tmp, "src/util/bigint.rs", lambda s: rename_in_fn(rename_in_fn(s, "checked_div", {"rhs": "divisor"}), "concat", {"lhs_slice": "hi", "rhs_slice": "lo", "rhs": "low", "result": "joined"}))
+
+
+@case("rename-expr-parser-locals", ["C05", "C19"])
+def _(tmp):
+    edit(tmp, "src/expr/parser.rs", lambda s: rename_in_fn(s, "parse_binary_ops", {"lhs": "left", "rhs": "right"}))
+
+
+@case("rename-range-closures", ["C04", "C01"])
+def _(tmp):
+    edit(tmp, "src/asm/resolver/instruction.rs", lambda s: rename_in_fn(s, "check_and_constrain_argument", {"x": "v", "size": "width", "bigint": "val"}))
+
+
+@case("rename-data-block-locals", ["C04", "C19", "C02"])
+def _(tmp):
+    edit(tmp, "src/asm/resolver/data_block.rs", lambda s: rename_in_fn(s, "resolve_data_element", {"encoding_size": "got", "elem_size": "want", "maybe_encoding": "enc"}))
+
+
 def run_case(c, only_prop=None):
     name, props, fn = c
     if only_prop is not None:
